@@ -231,10 +231,7 @@ func (p *Path) InputFrom(spec []SegSpec) []Seg {
 				b.Bits[7-j] = w
 			}
 		}
-		if c, ok := b.Const(); ok {
-			b.Lin = LConst(c)
-		}
-		out = append(out, Seg{Byte: b})
+		out = append(out, Seg{Byte: p.E.fixLin(p, b)})
 	}
 	return out
 }
